@@ -290,7 +290,14 @@ impl Runtime {
                 None => return Event::Stopped,
             },
             State::Interrupt => {
-                self.state = State::RuntimeError(error!(Break, line_number(self)));
+                // Direct code sits right behind the program: about to run its first
+                // instruction is not a break in the program's last line.
+                let line_number = if self.pc >= self.entry_address {
+                    None
+                } else {
+                    line_number(self)
+                };
+                self.state = State::RuntimeError(error!(Break, line_number));
             }
             State::Listing(range) => {
                 let mut range = range.clone();
